@@ -484,6 +484,7 @@ def c09(tier):
     nflip = 0
     flipped_gates = set()
     nco = [0]
+    co_done = set()
 
     def add(trace, res, year, info, given):
         oid = len(obs) + 1
@@ -529,6 +530,11 @@ def c09(tier):
             add(tr, res, year, {"kind": variant, "gate": g, "value": text, "sid": sc["sid"], "year": year, "request": request, "given": dict(ans.given)}, ans.given)
             if variant != "flip":
                 continue
+            if tier == "quick":
+                # (per-change tier: once per year and gate)
+                if (year, _strip_inst(g)) in co_done:
+                    continue
+                co_done.add((year, _strip_inst(g)))
             # the gate may be masked by another answer: every yes/no answer that a line reading the gate ALSO consulted in this run (directly, or
             # through a line it read) is inverted, one at a time -- "late, but with a federal extension" must stop the return like "late" does
             attempts = [ev for ev in tr["events"] if ev["ev"] == "attempt"]
